@@ -348,7 +348,7 @@ fn fam_inflate(s: &Script, st: &mut Stats) -> Result<RunInfo, Violation> {
             produced.extend_from_slice(&rout[..dout]);
             if let Some(a) = exp_adler {
                 if strm.adler as u32 != a {
-                    return viol("C17.adler_field_same_as_rust", format!("mz_inflate call {}: stream.adler {:#x}, Rust decoder {:#x}", k, strm.adler, a));
+                    return viol("C16.c_stream_adler_matches_decoder", format!("mz_inflate call {}: stream.adler {:#x}, DecompressorOxide::adler32() of the lock-step Rust decoder {:#x}", k, strm.adler, a));
                 }
                 // The field covers everything DECODED so far; bytes still waiting in the 32 KiB window are
                 // included. Compare only when nothing can be pending (output space was left over).
